@@ -31,9 +31,9 @@ Qed.
 
 Lemma settle_disk : forall b s o, disk (settle b s o) = disk s /\ wal (settle b s o) = wal s.
 Proof.
-  intros b s o. destruct o; cbn; auto using release_disk.
-  - destruct (kv_get (s_nodes b) (t, id)); auto using release_disk.
-  - destruct (kv_get (s_edges b) (t, id)); auto using release_disk.
+  intros b s o. destruct o; cbn; auto using release_disk;
+    try (destruct (kv_get (s_nodes b) (t, id)); auto using release_disk);
+    try (destruct (kv_get (s_edges b) (t, id)); auto using release_disk).
 Qed.
 
 (* the durable steps of an admitted operation: nothing on disk before the storage write,
